@@ -143,12 +143,11 @@ Theorem C18_nak_to_ack_refuted :
 Proof. exact nak_to_ack_refuted. Qed.
 Print Assumptions C18_nak_to_ack_refuted.
 
-(** ** A defect of the current code, excluded by the model's terminal [Down]: the line engine
-    keeps answering the line after its own send failed, while the closing generation no longer
-    delivers. A peer message is then ACK'd (its send returns nil) and lost. The theorems above
-    therefore hold for the engine with fixes/C18-stop-engine-after-send-failed.diff applied
-    (known finding C18-ack-into-closing-generation, reproduced on the real code by the check's
-    race probe). *)
+(** ** Why [Down] is terminal in the model — and, since fix 2852a07, in the code (the line engine
+    returns right after reporting ErrSendFailed). An engine that keeps answering the line after
+    its own send failed, while the closing generation no longer delivers, lets a peer message be
+    ACK'd (its send returns nil) and lost: this was finding C18-ack-into-closing-generation
+    (fixed); the check's race probe reproduces the schedule on every run. *)
 Theorem C18_served_after_failure_refuted :
   exists s, run (sys0 0 0 [(7, 1)] [(9, 1)]) [LStart B; LLine B Drop; LTimeout B] = Some s /\
     e_ph (sb s) = Down /\
